@@ -52,7 +52,12 @@ class Fn:
         self.assigned = set()
         self.aliases = {}          # local name -> section expression (Coq text) of `obj.system.parse_errors[section]`
         self.added = False         # an errors.add(...) has been translated (later membership tests are refused)
-        self.helper = None         # Fn of the nested helper
+        self.helper = None         # Fn of the helper (nested function, or private function of the same module)
+        self.module_fns = {}       # name -> FunctionDef of the same module (candidates for the helper)
+        self.inline = {}           # single-assignment local -> Coq text of its (pure) value: substituted at its uses
+        self.loop_vars = []        # targets of the enclosing `for` loops
+        self.loop_inlines = []     # per enclosing for: the inlined locals defined in its body (out of scope after it)
+        self.once = set()          # locals assigned exactly once, at the top level of the body or of a for-body
 
     # ---- names
     def var(self, name):
@@ -61,6 +66,8 @@ class Fn:
         return 'v_%s_%s' % (self.tag, name)
 
     def name(self, n, node):
+        if n in self.inline:
+            return self.inline[n]
         if n in self.vars and n in self.assigned:
             return 'EVar %s' % self.var(n)
         if n in self.params:
@@ -73,8 +80,55 @@ class Fn:
                 return 'EParam %d' % (i - 1)            # self is not a value parameter
             return 'EParam %d' % i
         if n in self.outer:
-            return 'EParam %d' % (1 + self.outer.index(n))
+            return 'EParam %d' % (len(self.params) + self.outer.index(n))
         bad('name %r is read before it is bound' % n, node)
+
+    def prepare(self):
+        """locals assigned exactly once, by a plain assignment at the top level of the body or of a for-body: their value
+        is substituted at the uses when it is a pure expression over parameters, other such locals and loop variables"""
+        counts = {}
+
+        def targets(st):
+            if isinstance(st, ast.Assign):
+                for t in st.targets:
+                    for n in ast.walk(t):
+                        if isinstance(n, ast.Name):
+                            yield n.id
+            elif isinstance(st, (ast.AnnAssign, ast.AugAssign)) and isinstance(st.target, ast.Name):
+                if not (isinstance(st, ast.AnnAssign) and st.value is None):
+                    yield st.target.id
+            elif isinstance(st, ast.For):
+                for n in ast.walk(st.target):
+                    if isinstance(n, ast.Name):
+                        yield n.id
+
+        def walk(stmts, dominating):
+            for st in stmts:
+                if isinstance(st, ast.FunctionDef):
+                    continue
+                for n in targets(st):
+                    counts.setdefault(n, [0, True])
+                    counts[n][0] += 1
+                    plain = isinstance(st, (ast.Assign, ast.AnnAssign)) and not isinstance(st, ast.AugAssign) \
+                        and ((isinstance(st, ast.Assign) and len(st.targets) == 1 and isinstance(st.targets[0], ast.Name))
+                             or isinstance(st, ast.AnnAssign))
+                    if not (dominating and plain):
+                        counts[n][1] = False
+                if isinstance(st, ast.If):
+                    walk(st.body, False)
+                    walk(st.orelse, False)
+                elif isinstance(st, ast.While):
+                    walk(st.body, False)
+                elif isinstance(st, ast.For):
+                    walk(st.body, dominating)
+        walk(strip_doc(self.fn.body), True)
+        self.once = {n for n, (c, ok) in counts.items() if c == 1 and ok and n not in self.params and n not in self.outer}
+
+    def pure_over(self, text):
+        """the translated value reads no assignable local except enclosing loop variables"""
+        import re as _re
+        allowed = {self.var(v) for v in self.loop_vars}
+        return all(m in allowed for m in _re.findall(r'EVar (\w+)', text))
 
     # ---- expressions
     def ex(self, e):
@@ -143,8 +197,23 @@ class Fn:
             return 'EFormat [%s]' % '; '.join(parts)
         if isinstance(e, ast.Call) and not e.keywords:
             f = e.func
-            if isinstance(f, ast.Name) and f.id == self.helper_name and len(e.args) == 1:
-                return 'ECallLocal (%s)' % self.ex(e.args[0])
+            if isinstance(f, ast.Name) and f.id != self.helper_name and self.helper is None and not self.outer \
+                    and self.helper_name is None and f.id in self.module_fns and self.kind == 'get_lineno':
+                # a private function of the same module that does the walk: it becomes the helper
+                hf = self.module_fns[f.id]
+                if hf.decorator_list or not hf.args.args:
+                    bad('helper signature', hf)
+                self.helper_name = f.id
+                h = Fn(hf, self.kind, self.tag + '_' + f.id, outer_params=[], helper_name=f.id)
+                h.module_fns = {}
+                h.prepare()
+                h.text = h.block(strip_doc(hf.body))
+                self.helper = h
+            if isinstance(f, ast.Name) and f.id == self.helper_name:
+                want = len(self.helper.params) if self.helper is not None else len(self.params)
+                if len(e.args) != want:
+                    bad('number of arguments of the helper', e)
+                return 'ECallLocal [%s]' % '; '.join(self.ex(a) for a in e.args)
             if isinstance(f, ast.Attribute):
                 nl = lambda x: isinstance(x, ast.Constant) and x.value == '\n'
                 if self.kind == 'get_lineno' and f.attr in ('index', 'find') and len(e.args) == 1:
@@ -156,6 +225,8 @@ class Fn:
                 if self.kind == 'get_lineno' and f.attr == 'count' and len(e.args) == 3 and nl(e.args[0]) \
                         and isinstance(e.args[1], ast.Constant) and e.args[1].value == 0:
                     return 'ECountNlPrefix (%s) (%s)' % (self.ex(f.value), self.ex(e.args[2]))
+                if self.kind == 'get_lineno' and f.attr == 'count' and len(e.args) == 1 and nl(e.args[0]):
+                    return 'ECountNl (%s)' % self.ex(f.value)
                 if self.kind == 'report_errors' and not e.args and f.attr in ('linenum', 'descr'):
                     return '%s (%s)' % ('EErrLinenum' if f.attr == 'linenum' else 'EErrDescr', self.ex(f.value))
                 if self.kind == 'report_errors' and not e.args and f.attr == 'fullName':
@@ -199,6 +270,31 @@ class Fn:
             if s.value is None:
                 return None
             return self.assign_value(s.target.id, s.value, s)
+        if isinstance(s, ast.Assign) and len(s.targets) == 1 and isinstance(s.targets[0], ast.Tuple) \
+                and all(isinstance(t, ast.Name) for t in s.targets[0].elts):
+            names = [t.id for t in s.targets[0].elts]
+            v = s.value
+            if isinstance(v, ast.Tuple) and len(v.elts) == len(names):
+                used = {n.id for x in v.elts for n in ast.walk(x) if isinstance(n, ast.Name)}
+                if used & set(names):
+                    bad('tuple assignment that reads its own targets', s)
+                out = [self.assign_value(n, x, s) for n, x in zip(names, v.elts)]
+                out = [o for o in out if o is not None]
+                if not out:
+                    return None
+                r = out[-1]
+                for o in reversed(out[:-1]):
+                    r = 'SSeq (%s) (%s)' % (o, r)
+                return r
+            if (isinstance(v, ast.Call) and isinstance(v.func, ast.Attribute) and v.func.attr == 'partition' and len(v.args) == 1
+                    and not v.keywords and len(names) == 3 and self.kind == 'get_lineno' and names[2].startswith('_')):
+                src, sub = self.ex(v.func.value), self.ex(v.args[0])
+                if not (self.pure_over(src) and self.pure_over(sub)) and (names[0] in ast.unparse(v) or names[1] in ast.unparse(v)):
+                    bad('partition() that reads its own targets', s)
+                a = self.assign(names[0], 'EPartBefore (%s) (%s)' % (src, sub))
+                b = self.assign(names[1], 'EPartFound (%s) (%s)' % (src, sub))
+                return 'SSeq (%s) (%s)' % (a, b)
+            bad('tuple assignment', s)
         if isinstance(s, ast.Assign):
             if len(s.targets) != 1 or not isinstance(s.targets[0], ast.Name):
                 bad('assignment target', s)
@@ -237,16 +333,22 @@ class Fn:
             before = set(self.assigned)
             v = self.var(s.target.id)
             self.assigned.add(s.target.id)
+            self.loop_vars.append(s.target.id)
+            self.loop_inlines.append([])
             b = self.block(s.body)
+            for n in self.loop_inlines.pop():
+                del self.inline[n]
+            self.loop_vars.pop()
             self.assigned = before
             return 'SForErrs %s (%s)' % (v, b)
         if isinstance(s, ast.FunctionDef):
             if self.kind != 'get_lineno' or self.helper is not None or self.outer:
                 bad('nested function', s)
-            if len(s.args.args) != 1 or s.decorator_list:
+            if len(s.args.args) < 1 or s.decorator_list:
                 bad('nested helper signature', s)
             self.helper_name = s.name
             h = Fn(s, self.kind, self.tag + '_' + s.name, outer_params=self.params, helper_name=s.name)
+            h.prepare()
             h.text = h.block(strip_doc(s.body))
             self.helper = h
             return None
@@ -297,9 +399,16 @@ class Fn:
                 return None
         if name in self.aliases:
             bad('re-assignment of the parse_errors alias', s)
-        return self.assign(name, self.ex(value))
+        rhs = self.ex(value)
+        if name in self.once and name not in self.vars and self.pure_over(rhs) and 'ECallLocal' not in rhs:
+            self.inline[name] = '(%s)' % rhs
+            if self.loop_vars:
+                self.loop_inlines[-1].append(name)
+            return None
+        return self.assign(name, rhs)
 
     def translate(self):
+        self.prepare()
         self.text = self.block(strip_doc(self.fn.body))
         return self.text
 
@@ -367,6 +476,7 @@ def generate() -> dict:
     f_report = Fn(rep, 'report', 'report')
     f_report.translate()
     f_gl = Fn(gl, 'get_lineno', 'get_lineno')
+    f_gl.module_fns = {n.name: n for n in td.body if isinstance(n, ast.FunctionDef) and n.name != 'get_lineno'}
     f_gl.translate()
     f_re = Fn(re_, 'report_errors', 'report_errors')
     f_re.translate()
